@@ -119,6 +119,17 @@ CHECKS = {
             "Model in vchecks/c15.py. Synthesis (RTLIL) agreement for view assignments is covered through C04's evaluator when "
             "that check is registered; here comb/sync statements are judged in simulation.",
             "DESIGN.md §4 C15"),
+    "C18": ("exploration",
+            "Hypothesis-generated port expressions (slice / + / ~ over base ports with arbitrary inversion tuples and "
+            "directions), buffer directions and stimulus; oracle = per-bit map model; judged in simulation "
+            "(SimulationPort, FFBuffer with harness-owned clocks) and on the netlist (real I/O ports)",
+            "The port algebra of all three port classes is compared bit for bit (length, direction, inversion tuple, "
+            "refusals) with a bit-map model; Buffer and FFBuffer on simulation ports are simulated on generated "
+            "o/oe/pad/clock events and every pad and fabric bit is compared after every event; for real ports the "
+            "netlist must contain exactly one I/O buffer cell per used pad bit, overlapping buffers must be refused, and "
+            "the cells' nets are evaluated to confirm that inversion is applied on the fabric side.",
+            "Model in vchecks/c18.py. The small netlist evaluator supports top/^/~/&/|/iob cells only (else exit 2).",
+            "DESIGN.md §4 C18"),
 }
 
 TITLES = {}
